@@ -256,6 +256,7 @@ func cmdCheck(args []string) {
 	fmt.Sscan(os.Getenv("VERIF_SEED"), &seed)
 	g := loadAll(*repo, *verif)
 	timeout := 10000
+	coverReturns = *tier == "thorough"
 	if *tier == "thorough" {
 		timeout = 60000
 	}
@@ -321,8 +322,13 @@ func cmdCheck(args []string) {
 				n++
 			}
 		}
-		if n > 0 && fg.c != nil && len(fg.c.Requires) > 0 {
-			fg.obls = append(fg.obls, &Obligation{Name: shortKey(fg.key) + "/cover.entry", Kind: "cover", Func: fg.key, Tags: []string{*prop}, Guard: "true", Goal: "false", Expect: "sat", Block: -2, Via: -1, Text: "requires clauses are satisfiable (vacuity guard)"})
+		if n > 0 {
+			for _, o := range fg.obls {
+				if o.Kind == "cover" && len(o.Tags) == 0 {
+					o.Tags = []string{*prop}
+				}
+			}
+			fg.obls = append(fg.obls, &Obligation{Name: shortKey(fg.key) + "/cover.entry", Kind: "cover", Func: fg.key, Tags: []string{*prop}, Guard: "true", Goal: "false", Expect: "sat", Block: -2, Via: -1, Text: "the assumptions at function entry (prelude axioms, ghost axioms, parameter invariants, requires clauses) are satisfiable (vacuity guard; refuted by any solver = engine fault)"})
 		}
 	}
 	results := Discharge(pre, fgs, filter, timeout, runtime.NumCPU(), *tier == "thorough")
@@ -336,6 +342,12 @@ func cmdCheck(args []string) {
 		}
 		return nil
 	}
+	fgByKey := map[string]*FuncGen{}
+	for _, fg := range fgs {
+		fgByKey[fg.key] = fg
+	}
+	replayed := map[string]*ReplayVerdict{}
+	unreachable := map[string][]string{}
 	proved, failed, unknown := 0, 0, 0
 	violations := 0
 	var lines []string
@@ -376,6 +388,11 @@ func cmdCheck(args []string) {
 		if r.Status == "proved" {
 			continue
 		}
+		if r.O.Kind == "cover" && strings.Contains(r.O.Name, "/cover.ret") {
+			// an unreachable return is reported, and is a fault only when no return of the function is reachable
+			unreachable[r.O.Func] = append(unreachable[r.O.Func], r.O.Name)
+			continue
+		}
 		if r.O.Kind == "cover" {
 			fmt.Printf("ENGINE-FAULT vacuous contract: %s\n", r.O.Name)
 			violations++
@@ -392,12 +409,37 @@ func cmdCheck(args []string) {
 		if id == "" {
 			id = firstOr(r.O.Tags, "none")
 		}
+		// try to exhibit a failing input on the real code
+		if fgOf := fgByKey[r.O.Func]; fgOf != nil && os.Getenv("GOVC_NO_REPLAY") == "" {
+			key := r.O.Func
+			if _, done := replayed[key]; !done {
+				replayed[key] = g.Replay(*repo, fgOf, r, seed)
+			}
+			if rv := replayed[key]; rv != nil {
+				r.confirmed = rv.Confirmed
+				r.replayInfo = rv.Info
+			}
+		}
 		rp := writeReplay(*verif, id, r)
 		suffix := ""
 		if !r.confirmed {
 			suffix = " no-failing-input-found"
 		}
 		lines = append(lines, fmt.Sprintf("VIOLATION property=%s replay=%s obligation=%s%s", id, rp, r.O.Name, suffix))
+	}
+	var unreachableAll []string
+	for _, fg := range fgs {
+		if u := unreachable[fg.key]; len(u) > 0 {
+			unreachableAll = append(unreachableAll, u...)
+			if len(u) == len(fg.retBlocks) {
+				fmt.Printf("ENGINE-FAULT no return of %s is reachable under the assumptions made (vacuous proofs)\n", shortKey(fg.key))
+				violations++
+			}
+		}
+	}
+	sort.Strings(unreachableAll)
+	for _, u := range unreachableAll {
+		fmt.Printf("NOTE unreachable return (postconditions there hold vacuously): %s\n", u)
 	}
 	var undecided []string
 	for _, fg := range fgs {
@@ -456,9 +498,11 @@ func cmdCheck(args []string) {
 				"samples":      samples, "functions_under_contract": fl, "by_backend": byBackend, "solver_time_s": solverTime, "slowest": slow,
 				"known_findings": knownHit, "undecided_functions": genErrNames, "undecided_clauses": undecided, "not_discharged": failed + unknown - len(knownHit),
 				"unmodelled_external_calls_havoced": unm,
+				"returns_found_unreachable_by_cover": unreachableAll,
 			},
 			Assumptions: append([]string{
 				"external contracts marked trusted in /verif/contracts/ext.gvc are assumed, not proved: " + strings.Join(trusted, ", "),
+				"sizes: every string is at most 2^40 bytes and every slice at most 2^44 elements (gs.wf / slice.wf); make() is required to stay below 2^44 elements; executions with larger values are not covered",
 				"integers are mathematical integers with explicit 64-bit wrap on + - * and conversions; floats are uninterpreted except for the listed facts",
 				"append on a slice owned by the call is modelled as producing a new backing array (aliasing between an owned slice and its pre-append value is not modelled)",
 				"objects that existed at function entry are not written by loops/callees: justified by the frame obligations of property C06, which are discharged separately",
@@ -506,7 +550,41 @@ func writeReplay(verif, prop string, r *Result) string {
 	return p
 }
 
-func cmdReplay(args []string) {}
+// cmdReplay re-runs the replay recorded in a replay file: it reloads /repo, regenerates the function
+// and tries again to exhibit a failing input on the real code.
+func cmdReplay(args []string) {
+	fs := flag.NewFlagSet("replay", flag.ExitOnError)
+	repo := fs.String("repo", "/repo", "")
+	verif := fs.String("verif", "/verif", "")
+	fs.Parse(args)
+	if fs.NArg() != 1 {
+		fatal("usage: govc replay <replay-file>")
+	}
+	b, err := os.ReadFile(fs.Arg(0))
+	if err != nil {
+		fatal("%v", err)
+	}
+	var doc map[string]interface{}
+	if err := json.Unmarshal(b, &doc); err != nil {
+		fatal("%v", err)
+	}
+	fmt.Printf("obligation: %v\nclause: %v\nrecorded status: %v (solver %v)\n", doc["obligation"], doc["clause"], doc["status"], doc["solver"])
+	g := loadAll(*repo, *verif)
+	fn := g.Funcs[fmt.Sprint(doc["function"])]
+	if fn == nil {
+		fatal("function %v no longer exists", doc["function"])
+	}
+	fg, err := g.GenFunc(fn)
+	if err != nil {
+		fatal("%v", err)
+	}
+	rv := g.Replay(*repo, fg, &Result{Model: fmt.Sprint(doc["model"])}, 0)
+	out, _ := json.MarshalIndent(rv.Info, "", " ")
+	fmt.Printf("replay on the current tree: confirmed=%v\n%s\n", rv.Confirmed, out)
+	if rv.Confirmed {
+		os.Exit(1)
+	}
+}
 
 // ReachableFromAPI: functions reachable from Search, Compile, MustCompile, Expression.Search through
 // static calls and closures, plus every Error/Is/Unwrap method of the repository's error types
